@@ -134,6 +134,21 @@ PROPS["C18"] = {
     ],
 }
 
+PROPS["C17"] = {
+    "level": "model_checking",
+    "technique": "explicit-state enumeration of complete tiny twisted-Edwards groups (full Cayley tables over ALL points incl. the 2-, 4- and 8-torsion, every scalar in [-2r-3, 2r+3] for every routine) built with the real ed_* code at 8-bit digits, plus point/scalar alphabet products on Ed25519 in the 255-bit build, against the affine Edwards addition law on GMP",
+    "level_text": "Complete groups: curves -x^2 + y^2 = 1 + d x^2 y^2 (d non-square, p = 1 mod 4: complete law) over 257, 281, 1009, 65449 and 65521 found by reference point counting are installed by writing the curve context (the Edwards module has no public setter); on the ~260/280/1000-point curves every ordered pair of points goes through addition, subtraction and doubling in affine, projective and extended coordinates with every operand representation and alias pattern, plus ed_neg, ed_norm, ed_cmp, ed_on_curve, ed_is_infty, and every scalar in [-2r-3, 2r+3] from every 5th point (outside the prime-order subgroup too, for the generic routines); on the 16-bit curves every scalar in [-2r-3, 2r+3] through basic, sliding, ladder, w-NAF, regular, generator, digit, the five fixed-base forms and the simultaneous forms, many-point forms with n in {0..4, 9..12, 33}, and the compression / codec round trip of every curve point. Ed25519: generator multiples, the complete 8-torsion, member + torsion, a full-order point; scalar alphabet; round trips; ed_map for every message length 0..140 (thorough 300) x 3 byte patterns lands on the curve, in the subgroup, deterministically.",
+    "level_note": "Trusted: ref_ed.h (affine law, completeness precondition checked per curve), context injection of (a, d, r, h, G) and the generator table. ed_map is judged for validity, determinism and input sensitivity, not for equality with an independent Elligator 2 implementation.",
+    "rule": "cases are (curve, operation group, points, scalars); tiny worlds: complete point lists / scalar ranges by odometer; W64-255: alphabet products; all non-trivial; distinct by 64-bit hash; transitions = routine results compared with the reference.",
+    "assumptions": ["reference Edwards law in ref_ed.h", "calls inside RLC_TRY", "curve context written directly for the tiny curves"],
+    "jobs": [
+        {"name": "ed-w8", "world": "W8", "src": "props/C17_ed.c", "share": 0.6},
+        {"name": "ed-w64-255", "world": "W64-255", "src": "props/C17_ed.c"},
+        {"name": "ed-w8-extnd", "world": "W8-edext", "src": "props/C17_ed.c", "share": 0.5},
+        {"name": "ed-w64-255-extnd", "world": "W64-255-edext", "src": "props/C17_ed.c"},
+    ],
+}
+
 PROPS["C07"] = {
     "level": "model_checking",
     "technique": "exhaustive enumeration of complete byte-string spaces given to the real decoders in the tiny build (every string of length 0..2/3 for integers, every 2-byte string per prime, every 1- and 3-byte string and structured 5-byte strings per tiny curve, every short text x every radix), tag x length x coordinate alphabets at shipped sizes, against a reference validity predicate and canonical encoder written from the format definition",
